@@ -33,6 +33,9 @@ type CaseC struct {
 	Val   cfggen.Val  `json:"val"`
 	Type2 cfggen.Type `json:"type2,omitempty"` // a second value serialised before the first result is read
 	Val2  cfggen.Val  `json:"val2,omitempty"`
+	// Reuse: what the caller does with the []byte it passed to the expression parser
+	// after the call returned ("" = nothing; see common_test.go)
+	Reuse string `json:"reuse,omitempty"`
 }
 
 // replaceStrings substitutes some string leaves by arbitrary Unicode strings.
@@ -98,27 +101,37 @@ func genC(t *rapid.T) CaseC {
 		c.Type2 = genValueType(t)
 		c.Val2 = cfggen.WidenNumbers(t, replaceStrings(t, cfggen.GenVal(t, c.Type2)), c.Type2)
 	}
+	c.Reuse = genReuse(t)
 	return c
 }
 
 func checkC(c CaseC) *core.Violation {
 	k := newKeeper()
-	v := checkC1(c.Val, c.Type, c.Val2, c.Type2, k)
+	v := checkC1(c.Val, c.Type, c.Val2, c.Type2, c.Reuse, k)
 	if v == nil && c.Val2.K != "" {
-		v = checkC1(c.Val2, c.Type2, cfggen.Val{}, cfggen.Type{}, k)
+		v = checkC1(c.Val2, c.Type2, cfggen.Val{}, cfggen.Type{}, c.Reuse, k)
 	}
 	return k.finish(v)
 }
 
-func checkC1(val cfggen.Val, ty cfggen.Type, val2 cfggen.Val, ty2 cfggen.Type, k *keeper) *core.Violation {
+func checkC1(val cfggen.Val, ty cfggen.Type, val2 cfggen.Val, ty2 cfggen.Type, reuse string, k *keeper) *core.Violation {
 	c := CaseC{Type: ty, Val: val}
 	v := cfggen.Typed(c.Val, c.Type)
 	src := k.keep("Tokens.Bytes", hclwrite.TokensForValue(v).Bytes())
+	other := ""
 	if val2.K != "" {
 		// another value is serialised before the first result is parsed
-		k.keep("Tokens.Bytes", hclwrite.TokensForValue(cfggen.Typed(val2, ty2)).Bytes())
+		other = string(k.keep("Tokens.Bytes", hclwrite.TokensForValue(cfggen.Typed(val2, ty2)).Bytes()))
 	}
-	expr, diags := hclsyntax.ParseExpression(src, "", startPos)
+	// src is a retained result of the library; when the caller reuses its buffers the
+	// parser gets the caller's own copy of it, which is used for something else as soon
+	// as the parser has returned, before the expression is evaluated
+	pin := &callerBuf{b: src}
+	if reuse != reuseNone {
+		pin = newCallerBuf(reuse, string(src), other, reuseFallbackExpr)
+	}
+	expr, diags := hclsyntax.ParseExpression(pin.b, "", startPos)
+	pin.reuse(func(next []byte) { hclsyntax.ParseExpression(next, "", startPos) })
 	if diags.HasErrors() {
 		cause := "other"
 		if containsNonPrintable(c.Val) {
@@ -175,6 +188,7 @@ func classifyC(c CaseC) core.Class {
 	if c.Val2.K != "" {
 		cl.Labels = append(cl.Labels, "results:two-values-serialised")
 	}
+	cl.Labels = append(cl.Labels, reuseLabel(c.Reuse))
 	nums := map[string]bool{}
 	cfggen.NumClasses(c.Val, false, nums)
 	for k := range nums {
@@ -188,7 +202,7 @@ func classifyC(c CaseC) core.Class {
 func TestC20c(t *testing.T) {
 	core.Run(t, core.Spec[CaseC]{
 		Property: "C20", Sub: "c",
-		Rule: "cty values of type string/number/bool, list/set/map of these, map of lists, object, or untyped tuple/object trees (strings from a pool of template/escape/comment look-alikes and arbitrary Unicode strings incl. control and non-printable runes; numbers: int64 boundaries and +-1 around them, uint64 above 2^63 up to MaxUint64, 2^64, 2^128, -2^70, 1e20, 1e308, 1e-7, 0.1, quotients such as 1/3 at cty precision, -0; also nested in lists/objects/maps), occasionally null. Oracle: two values are serialised and every returned slice must stay what it was; TokensForValue(v).Bytes() parses as an expression and evaluates to v (after conversion to v's type, as documented for collection literals). Non-trivial: a collection/structural value or a string that needs escaping; distinct = (type kind, non-printable, needs escaping, null, size<=3)",
+		Rule: "cty values of type string/number/bool, list/set/map of these, map of lists, object, or untyped tuple/object trees (strings from a pool of template/escape/comment look-alikes and arbitrary Unicode strings incl. control and non-printable runes; numbers: int64 boundaries and +-1 around them, uint64 above 2^63 up to MaxUint64, 2^64, 2^128, -2^70, 1e20, 1e308, 1e-7, 0.1, quotients such as 1/3 at cty precision, -0; also nested in lists/objects/maps), occasionally null. Oracle: two values are serialised and every returned slice must stay what it was; TokensForValue(v).Bytes() parses as an expression and evaluates to v (after conversion to v's type, as documented for collection literals). Non-trivial: a collection/structural value or a string that needs escaping; distinct = (type kind, non-printable, needs escaping, null, size<=3). In about half of the cases the caller reuses its input buffers (labels input:caller-reuses-buffer|fill-0xAA / other-source-bytes / next-source-parsed, the other half input:caller-leaves-buffer-alone): as soon as a parsing entry point has returned, the []byte that was passed to it is filled with 0xAA, or overwritten with the bytes of a different generated source of the same length, or truncated and the next source read into the same backing array and parsed; everything obtained from the call is used only after that and must be what it is in the other half (oracles work on a private copy of the text taken before the call). Here: the caller's copy of the generated expression text given to hclsyntax.ParseExpression, reused (in mode next-source-parsed: the second value's text parsed through it) before the expression is evaluated",
 		Gen:  genC, Check: checkC, Classify: classifyC,
 		Assumptions: []string{"go-cty conversion and number parsing are the trusted base"},
 	})
@@ -200,6 +214,9 @@ type CaseD struct {
 	Schema cfggen.BodyS  `json:"schema"`
 	Inst   cfggen.BodyI  `json:"inst"`
 	Inst2  *cfggen.BodyI `json:"inst2,omitempty"` // a second instance encoded before the first file is read
+	// Reuse: what the caller does with the []byte it passed to the parser after the
+	// call returned, before the body is decoded ("" = nothing; see common_test.go)
+	Reuse string `json:"reuse,omitempty"`
 }
 
 func genD(t *rapid.T) CaseD {
@@ -210,6 +227,7 @@ func genD(t *rapid.T) CaseD {
 		in2 := cfggen.GenInstance(t, &s)
 		c.Inst2 = &in2
 	}
+	c.Reuse = genReuse(t)
 	return c
 }
 
@@ -281,7 +299,7 @@ func checkD(c CaseD) *core.Violation {
 	k := newKeeper()
 	v := checkD1(c, k)
 	if v == nil && c.Inst2 != nil {
-		v = checkD1(CaseD{Schema: c.Schema, Inst: *c.Inst2}, k)
+		v = checkD1(CaseD{Schema: c.Schema, Inst: *c.Inst2, Reuse: c.Reuse}, k)
 	}
 	return k.finish(v)
 }
@@ -293,6 +311,7 @@ func checkD1(c CaseD, k *keeper) *core.Violation {
 	f := hclwrite.NewEmptyFile()
 	gohcl.EncodeIntoBody(ptr.Interface(), f.Body())
 	src := k.keep("File.Bytes", f.Bytes())
+	other := ""
 	if c.Inst2 != nil {
 		// the second instance is encoded and serialised before the first file is read
 		w2 := cfggen.ExpectedStruct(&c.Schema, c.Inst2, nil)
@@ -300,10 +319,18 @@ func checkD1(c CaseD, k *keeper) *core.Violation {
 		p2.Elem().Set(w2)
 		f2 := hclwrite.NewEmptyFile()
 		gohcl.EncodeIntoBody(p2.Interface(), f2.Body())
-		k.keep("File.Bytes", f2.Bytes())
+		other = string(k.keep("File.Bytes", f2.Bytes()))
 		k.keep("Tokens.Bytes", f2.BuildTokens(nil).Bytes())
 	}
-	file, diags := hclsyntax.ParseConfig(src, "", startPos)
+	// src is a retained result of the library; when the caller reuses its buffers the
+	// parser gets the caller's own copy of it, which is used for something else as soon
+	// as the parser has returned, before the body is decoded
+	pin := &callerBuf{b: src}
+	if c.Reuse != reuseNone {
+		pin = newCallerBuf(c.Reuse, string(src), other, reuseFallbackConfig)
+	}
+	file, diags := hclsyntax.ParseConfig(pin.b, "", startPos)
+	pin.reuse(func(next []byte) { hclsyntax.ParseConfig(next, "", startPos) })
 	if diags.HasErrors() {
 		cause := "other"
 		if instNonPrintable(&c.Inst) {
@@ -394,6 +421,7 @@ func classifyD(c CaseD) core.Class {
 	if c.Inst2 != nil {
 		cl.Labels = append(cl.Labels, "results:two-encodings-serialised")
 	}
+	cl.Labels = append(cl.Labels, reuseLabel(c.Reuse))
 	cl.NonTrivial = nb > 0
 	cl.Fingerprint = fmt.Sprintf("d=%d|lab=%v|rep=%v|nb=%d|na=%d", maxd, lab, rep, minInt(nb, 4), minInt(len(c.Inst.Attrs), 4))
 	return cl
@@ -402,7 +430,7 @@ func classifyD(c CaseD) core.Class {
 func TestC20d(t *testing.T) {
 	core.Run(t, core.Spec[CaseD]{
 		Property: "C20", Sub: "d",
-		Rule: "schemas restricted to what gohcl.EncodeIntoBody documents as supported (no remain/any fields) with conforming instances, built as Go structs (reflect.StructOf, yaotl tags: attr/optional/pointer, int64/uint64/float64 number fields with boundary, >2^63, 1e20, 1e308 values, block/[]block/[]*block, labels); Oracle: two instances are encoded and serialised, every returned slice must stay what it was; EncodeIntoBody into an empty file -> Bytes() -> parse -> DecodeBody gives an equal struct. Non-trivial: at least one nested block; distinct = (nesting, labelled, repeated, #blocks<=4, #attrs<=4)",
+		Rule: "schemas restricted to what gohcl.EncodeIntoBody documents as supported (no remain/any fields) with conforming instances, built as Go structs (reflect.StructOf, yaotl tags: attr/optional/pointer, int64/uint64/float64 number fields with boundary, >2^63, 1e20, 1e308 values, block/[]block/[]*block, labels); Oracle: two instances are encoded and serialised, every returned slice must stay what it was; EncodeIntoBody into an empty file -> Bytes() -> parse -> DecodeBody gives an equal struct. Non-trivial: at least one nested block; distinct = (nesting, labelled, repeated, #blocks<=4, #attrs<=4). In about half of the cases the caller reuses its input buffers (labels input:caller-reuses-buffer|fill-0xAA / other-source-bytes / next-source-parsed, the other half input:caller-leaves-buffer-alone): as soon as a parsing entry point has returned, the []byte that was passed to it is filled with 0xAA, or overwritten with the bytes of a different generated source of the same length, or truncated and the next source read into the same backing array and parsed; everything obtained from the call is used only after that and must be what it is in the other half (oracles work on a private copy of the text taken before the call). Here: the caller's copy of the encoded file given to hclsyntax.ParseConfig, reused (in mode next-source-parsed: the second encoding parsed through it) before the body is decoded",
 		Gen:  genD, Check: checkD, Classify: classifyD,
 		Assumptions: []string{"nil and empty slices/maps are the same Go result"},
 	})
